@@ -588,7 +588,11 @@ ccoPrExpr(CCode cco, int oPrec)
 		break;
 	case CCOK_Prefix:
 		cc += ccoPuts  (str);
-		cc += ccoPrExpr(ccoArgv(cco)[0], iPrec);
+		/* Keep "- -x" from being read as "--x". */
+		a   = ccoArgv(cco)[0];
+		if (a && ccoIsExpr(a) && ccoInfo(ccoTag(a)).kind == CCOK_Prefix)
+			cc += ccoPuts(" ");
+		cc += ccoPrExpr(a, iPrec);
 		break;
 	case CCOK_Postfix:
 		cc += ccoPrExpr(ccoArgv(cco)[0], iPrec);
